@@ -57,6 +57,9 @@ const FAULTS: &[(&str, bool)] = &[
     ("fail-once-partial-then-real", true),
     ("exit1-noisy-stderr-0", true),
     ("exit1-noisy-stderr-1", true),
+    ("exit1-no-read-x6", true),
+    ("kill-before-read-x6", true),
+    ("real-with-RUSTFMT-env", true),
     ("truncated-ok", false),
     ("garbage-ok", false),
     ("invalid-utf8-ok", true),
@@ -246,6 +249,8 @@ fn real_rustfmt(orig_path: &str) -> Option<String> {
 }
 
 fn stub_script(fault: &str, real: &str, cat: &str, head: &str, sleep: &str) -> Option<String> {
+    // `<fault>-x6`: the same stub, but ONE generator process makes six calls in a row (what a failure leaks adds up)
+    let fault = fault.strip_suffix("-x6").unwrap_or(fault);
     let body = match fault {
         "absent" => return None,
         "exit1-after-drain" => format!("{cat} >/dev/null\nexit 1\n"),
@@ -275,7 +280,7 @@ fn stub_script(fault: &str, real: &str, cat: &str, head: &str, sleep: &str) -> O
         "truncated-ok" => format!("{real} \"$@\" | {head} -c 100\nexit 0\n"),
         "garbage-ok" => format!("{cat} >/dev/null\nprintf 'fn ('\nexit 0\n"),
         "invalid-utf8-ok" => format!("{cat} >/dev/null\nprintf '\\377\\376'\nexit 0\n"),
-        "real" => format!("exec {real} \"$@\"\n"),
+        "real" | "real-with-RUSTFMT-env" => format!("exec {real} \"$@\"\n"),
         other => panic!("unknown fault {other}"),
     };
     Some(format!("#!/bin/sh\n{body}"))
@@ -290,6 +295,12 @@ fn make_stub_dir(fault: &str, orig_path: &str, real: &str) -> String {
         let p = format!("{dir}/rustfmt");
         std::fs::write(&p, s).unwrap();
         std::fs::set_permissions(&p, std::fs::Permissions::from_mode(0o755)).unwrap();
+        if fault == "real-with-RUSTFMT-env" {
+            // the variable `cargo fmt` / bindgen honour points at a formatter that prints garbage: the generator's formatter is `rustfmt` on PATH
+            let g = format!("{dir}/garbage_formatter");
+            std::fs::write(&g, format!("#!/bin/sh\n{} >/dev/null\nprintf 'fn ('\nexit 0\n", tool("cat"))).unwrap();
+            std::fs::set_permissions(&g, std::fs::Permissions::from_mode(0o755)).unwrap();
+        }
     }
     dir
 }
@@ -323,6 +334,8 @@ fn run_child(path_env: &str, fault: &str, file: &str, index: usize, timeout: Dur
     let mut child = Command::new(exe)
         .args(["--child", fault, file, &index.to_string()])
         .env("PATH", path_env)
+        .env("FAULTS_REPEAT", if fault.ends_with("-x6") { "6" } else { "1" })
+        .env("RUSTFMT", if fault == "real-with-RUSTFMT-env" { format!("{}/garbage_formatter", path_env.split(':').next().unwrap_or("")) } else { String::new() })
         .stdin(Stdio::null())
         .stdout(Stdio::piped())
         .stderr(Stdio::null())
@@ -410,7 +423,25 @@ fn child_main(file: &str, index: usize) {
     let cases = read_cases(file);
     let (_, src) = &cases[index];
     let wo = wgsl_to_wgpu::WriteOptions { rustfmt: true, ..Default::default() };
-    let r = catch_unwind(AssertUnwindSafe(|| wgsl_to_wgpu::create_shader_module_embedded(src, wo)));
+    if std::env::var("RUSTFMT").map(|v| v.is_empty()).unwrap_or(false) {
+        std::env::remove_var("RUSTFMT");
+    }
+    let repeat: usize = std::env::var("FAULTS_REPEAT").ok().and_then(|v| v.parse().ok()).unwrap_or(1);
+    let mut r = catch_unwind(AssertUnwindSafe(|| wgsl_to_wgpu::create_shader_module_embedded(src, wo)));
+    for k in 1..repeat {
+        let again = catch_unwind(AssertUnwindSafe(|| wgsl_to_wgpu::create_shader_module_embedded(src, wo)));
+        let same = match (&r, &again) {
+            (Ok(Ok(a)), Ok(Ok(b))) => a == b,
+            (Ok(Err(a)), Ok(Err(b))) => format!("{a}") == format!("{b}"),
+            (Err(_), Err(_)) => true,
+            _ => false,
+        };
+        if !same {
+            println!("{}", tagged("child", vec![tagged("panic", vec![string(format!("call {} of {} in one process gives another result than the first", k + 1, repeat))]), nat(0u32), string(""), atom("n/a")]).render());
+            return;
+        }
+        r = again;
+    }
     let line = match r {
         Ok(Ok(text)) => {
             if let Ok(p) = std::env::var("FAULTS_DUMP") {
@@ -516,6 +547,15 @@ const SYNTH_SMALL: &[&str] = &[
 /// followed by blanks, runs of blanks, tabs, CR LF, quotes and backslashes in comments, Rust-looking text,
 /// a non-ASCII identifier.
 const TRICKY_SOURCE: &str = "// \"quoted\" \\ back\\slash :: <T> pub fn x ( ) { ; }  'a'\r\nstruct P { a: f32, b: vec2<f32> }   \n@group(0) @binding(0) var<uniform> p: P;\n@compute @workgroup_size(1)\nfn main() {\tvar s = 0.0; for (var i = 0u; i < 4u; i++) { s += p.a; } ; { } var \u{394}t = s; }\n";
+
+/// Always selected (large): ~250 KB of 3-byte characters in a comment of the embedded source - every fixed-size read of the
+/// formatter's output cuts through a character somewhere
+fn large_unicode_source() -> String {
+    let mut s = String::from("// ");
+    s.push_str(&"\u{65e5}\u{672c}\u{8a9e}\u{306e}\u{30c6}\u{30ad}\u{30b9}\u{30c8}".repeat(10500));
+    s.push_str("\nstruct \u{3b1}\u{3b2} { \u{3b3}: vec4<f32> }\n@group(0) @binding(0) var<uniform> \u{3b4}: \u{3b1}\u{3b2};\n@compute @workgroup_size(1)\nfn main() { _ = \u{3b4}.\u{3b3}; }\n");
+    s
+}
 
 fn synth_large(n: usize) -> String {
     let mut s = String::new();
@@ -683,6 +723,12 @@ fn main() {
     }
     if let RefOut::Ok(r) = reference(TRICKY_SOURCE) {
         selected.push(("synth:tricky-source".to_string(), TRICKY_SOURCE.to_string(), "small", r));
+    }
+    if n_large > 0 {
+        let lu = large_unicode_source();
+        if let RefOut::Ok(r) = reference(&lu) {
+            selected.push(("synth:large-unicode".to_string(), lu, "large", r));
+        }
     }
     for (k, src) in SYNTH_SMALL.iter().enumerate() {
         if ns >= n_small {
